@@ -11,7 +11,7 @@ from ..result import Result
 ID = "C06"
 RTOL = 1e-10
 TOLERANCES = {"operator on constant (relative to sum |row|*|c0|)": RTOL, "TVD of constant": "bitwise 0",
-              "steady solve": 1e-8, "source-only solve": 1e-12}
+              "steady solve": "max(1e-8, 1e-13*cond(step matrix))", "source-only solve": 1e-12}
 RULE = ("Generated: grid (9 classes, N 1..4 / 1..3 in 3-D, all spacings, r0=0/offset) x D>=0 with zeros/contrast x "
         "arbitrary u, direction field w x constant c0 = +-10^[-6,6] x all 16 limiters; solver part: uniform field, "
         "boundary values matching it (Dirichlet c0 with face-wise scaled coefficients / no-flux / periodic), discretely "
@@ -158,7 +158,20 @@ def check(case):
     nrm = problem.opnorm(mm, P)
     dt = P["theta"] / (nrm if nrm > 0 else 1.0)
     ok = True
-    for k in range(P['steps']):
+    # conditioning of the step's own system: pure central advection with large dt is nearly singular (non-dissipative), the
+    # uniform state is then reproduced only to cond*eps
+    A_, s_ = problem.spatial_operator(mm, P)
+    Mb_, vb_ = pf.boundaryConditionsTerm(phi.BCs)
+    T_ = Mb_.toarray() + A_ + pf.transientTerm(phi, dt, problem.alpha_arg(mm, P))[0].toarray()
+    try:
+        cond = float(np.linalg.cond(T_))
+    except np.linalg.LinAlgError:
+        cond = float('inf')
+    if not cond < 1e12:
+        res.discarded = True
+        ok = False
+    tol_steady = max(1e-8, 1e-13 * cond)
+    for k in range(P['steps'] if ok else 0):
         problem.step_implicit(mm, phi, P, dt)
         v = np.asarray(phi.value)
         if not np.all(np.isfinite(v)):
@@ -166,7 +179,7 @@ def check(case):
             ok = False
             break
         e = np.abs(v - c0).max() / (abs(c0) if c0 else 1.0)
-        if not res.expect_small("steady-uniform", float(e), 1e-8 + 1e-13 * P['theta'], f"steady-uniform:{P['scheme']}:{name}",
+        if not res.expect_small("steady-uniform", float(e), tol_steady, f"steady-uniform:{P['scheme']}:{name}",
                                 f"uniform field in divergence-free flow not steady ({P['scheme']}, {name}, "
                                 f"periodic {case['periodic_axes']}, step {k + 1})"):
             break
